@@ -228,6 +228,16 @@ def same_number(a, b):
         return False
 
 
+def same_unc(x, y):
+    """two uncertain numbers: nominal value and standard deviation agree (rel 1e-9)"""
+    def close(p, q):
+        p, q = float(p), float(q)
+        if math.isnan(p) or math.isnan(q):
+            return math.isnan(p) and math.isnan(q)
+        return p == q or math.isclose(p, q, rel_tol=1e-9, abs_tol=0.0)
+    return close(x.nominal_value, y.nominal_value) and close(x.std_dev, y.std_dev)
+
+
 def same_value(a, b):
     """two results of the same kind with equal magnitude type, magnitude and units"""
     am, bm = hasattr(a, "magnitude"), hasattr(b, "magnitude")
@@ -237,9 +247,11 @@ def same_value(a, b):
         if hasattr(a.magnitude, "nominal_value") or hasattr(b.magnitude, "nominal_value"):
             x, y = a.magnitude, b.magnitude
             return (hasattr(x, "nominal_value") and hasattr(y, "nominal_value")
-                    and same_number(float(x.nominal_value), float(y.nominal_value))
-                    and same_number(float(x.std_dev), float(y.std_dev)) and a.units == b.units)
+                    and same_unc(x, y) and a.units == b.units)
         return same_number(a.magnitude, b.magnitude) and a.units == b.units
+    if hasattr(a, "nominal_value") or hasattr(b, "nominal_value"):
+        return (hasattr(a, "nominal_value") and hasattr(b, "nominal_value")
+                and same_unc(a, b))
     from pint.util import ParserHelper
     if isinstance(a, ParserHelper) or isinstance(b, ParserHelper):
         return (isinstance(a, ParserHelper) and isinstance(b, ParserHelper)
@@ -260,7 +272,12 @@ def describe(o):
     v = o[1]
     try:
         if hasattr(v, "magnitude"):
+            m = v.magnitude
+            if hasattr(m, "nominal_value"):
+                return f"{m.nominal_value!r} +/- {m.std_dev!r} [{dict(v._units._d)}]"
             return f"{v.magnitude!r} [{dict(v._units._d)}] ({type(v.magnitude).__name__})"
+        if hasattr(v, "nominal_value"):
+            return f"{v.nominal_value!r} +/- {v.std_dev!r}"
         return f"{v!r} ({type(v).__name__})"
     except Exception:  # noqa: BLE001
         return "<value>"
@@ -444,23 +461,7 @@ def string_level(ck, rng, thorough):
                               {"string": txt + " m", "python_source": "L0*L1", "leaves": [("num", txt), ("name", "m")],
                                "non_int_type": nit.__name__, "path": "parse_expression"}))
             ck.case(key=("lit", nit.__name__, txt))
-    # (e) uncertainties (token-level rules are C19's; here only that the value is Python's ufloat arithmetic)
-    try:
-        from uncertainties import ufloat
-        ureg = registry(float)
-        for txt, mk in [("(2.0 +/- 0.1) m", lambda: ufloat(2.0, 0.1) * ureg.Quantity(1, "meter")),
-                        ("(2.0 ± 0.1) m / s", lambda: ufloat(2.0, 0.1) * ureg.Quantity(1, "meter") / ureg.Quantity(1, "second")),
-                        ("3 * (2.0 +/- 0.5) m", lambda: 3 * ufloat(2.0, 0.5) * ureg.Quantity(1, "meter")),
-                        ("(1.5 +/- 0.2) m ** 2", lambda: ufloat(1.5, 0.2) * ureg.Quantity(1, "meter") ** 2)]:
-            got, want = outcome(lambda: ureg.parse_expression(txt)), outcome(mk)
-            n_eval += 1
-            ck.count("uncertainties")
-            ck.case(key=("unc", txt))
-            if not same_outcome(got, want):
-                fails.append(("uncertainty:" + txt, f"{txt!r} gives {describe(got)}, Python gives {describe(want)}",
-                              {"string": txt, "pint": describe(got), "python": describe(want)}))
-    except ImportError:
-        ck.count("uncertainties: package missing, skipped")
+    # (e) uncertainties: see uncertainty_level
     ck.extra["string_level"] = {
         "evaluations": n_eval,
         "oracle": "eval() of the same parenthesisation with explicit * and **, leaves bound to ureg.Quantity(1, name) / "
@@ -619,3 +620,142 @@ def no_execution(ck, rng, thorough):
                        "no such import (theorem C07_eval_closed)",
     }
     return fails
+
+
+# ----------------------------------------------------------------------------- +/- uncertainties
+def unc_expected(nom, unc, exp):
+    """(nominal, std_dev) an uncertainty literal denotes, computed from its text with Decimal and
+    independently of pint: in the concise form N.ddd(uu) the digits count in units of the last
+    decimal of N.ddd (an uncertainty written with a point is taken as it is); an exponent applies
+    to both"""
+    ndec = len(nom.partition(".")[2])
+    n = Decimal(nom)
+    sd = Decimal(unc) if ("." in unc or ndec == 0) else Decimal(int(unc)).scaleb(-ndec)
+    if exp:
+        n, sd = n.scaleb(int(exp)), sd.scaleb(int(exp))
+    return n, sd
+
+
+def dec_text(d):
+    """a Decimal as a plain literal (no exponent)"""
+    t = format(d, "f")
+    return t
+
+
+def uncertainty_level(ck, rng, thorough):
+    """every spelling of an uncertain number (concise N(uu), (N +/- U), (N ± U), bare N +/- U, each with
+    an optional exponent suffix) in arithmetic contexts, against Python's arithmetic on
+    ufloat(nominal, std_dev) and the named quantities; plus the token texts of the concise form
+    for the model (KConcise).  Returns (oracle failures, coq cases, replay infos)."""
+    fails, cases, meta = [], [], []
+    try:
+        from uncertainties import ufloat, ufloat_fromstr
+        from pint import pint_eval
+        from pint.compat import HAS_UNCERTAINTIES
+    except ImportError:
+        ck.count("uncertainties: package missing, skipped")
+        return fails, cases, meta
+    if not HAS_UNCERTAINTIES:
+        ck.count("uncertainties: package missing, skipped")
+        return fails, cases, meta
+    ureg = registry(float)
+    Q = ureg.Quantity
+    m, sec, kg = Q(1, "meter"), Q(1, "second"), Q(1, "kilogram")
+    # context: (prefix, suffix, function of the uncertain number giving Python's value, power?)
+    contexts = [
+        ("", "", lambda x: x, False), ("", " m", lambda x: x * m, False), ("", "*m", lambda x: x * m, False),
+        ("", " m/s", lambda x: x * m / sec, False), ("", " m**2", lambda x: x * m ** 2, False),
+        ("", "/s", lambda x: x / sec, False), ("3 * ", " kg", lambda x: 3 * x * kg, False),
+        ("2 ", "", lambda x: 2 * x, False), ("-", " m", lambda x: -x * m, False),
+        ("m / ", "", lambda x: m / x, False), ("1 + ", "", lambda x: 1 + x, False),
+        ("", " - 1", lambda x: x - 1, False),
+        ("", "**2", lambda x: x ** 2, True), ("", "^2 m", lambda x: x ** 2 * m, True), ("", "²", lambda x: x ** 2, True),
+    ]
+    noms = ["1.2", "12.3", "1.23", "8.0", "0.5", "4.400", "12.34", "7", "120", "0.05", "5.", ".5"]
+    uncs = ["4", "04", "12", "34", "345", "5678", "100", "4.5", "0.3", "007"]
+    exps = ["", "3", "-2", "+05"]
+    grid = [(n, u, e) for n in noms for u in uncs for e in exps]
+    if not thorough:
+        grid = [g for i, g in enumerate(grid) if i % 2 == 0 or g[2] == ""]
+    for _ in range(1500 if thorough else 250):
+        ip = "".join(rng.choice("0123456789") for _ in range(rng.randint(1, 3))).lstrip("0") or "0"
+        fp = "".join(rng.choice("0123456789") for _ in range(rng.randint(0, 4)))
+        nom = ip + ("." + fp if fp or rng.random() < 0.1 else "")
+        unc = "".join(rng.choice("0123456789") for _ in range(rng.randint(1, 5)))
+        if rng.random() < 0.15:
+            unc = unc + "." + rng.choice("0123456789")
+        grid.append((nom, unc, rng.choice(["", "", "2", "-3", "+1", "-04"])))
+    n_eval = 0
+    seen_tok = set()
+    for nom, unc, exp in grid:
+        n, sd = unc_expected(nom, unc, exp)
+        if float(n) == 0.0 and exp:
+            continue          # pint leaves a zero mantissa alone (documented in _apply_e_notation)
+        n0, sd0 = unc_expected(nom, unc, "")
+        suffix = ("e" + exp) if exp else ""
+        spellings = [("concise", f"{nom}({unc}){suffix}"),
+                     ("paren", f"({dec_text(n0)} +/- {dec_text(sd0)}){suffix}"),
+                     ("paren-pm", f"({dec_text(n0)} ± {dec_text(sd0)}){suffix}"),
+                     ("paren-tight", f"({dec_text(n0)}+/-{dec_text(sd0)}){suffix}")]
+        if not exp:
+            spellings.append(("bare", f"{dec_text(n0)} +/- {dec_text(sd0)}"))
+        # the token text of the concise form, for the model
+        plain = nom.replace(".", "", 1).isdigit() and nom != "." and unc.isdigit()
+        if plain and (nom, unc) not in seen_tok:
+            seen_tok.add((nom, unc))
+            got_t = outcome(lambda: [t.string for t in pint_eval.uncertainty_tokenizer(f"{nom}({unc})")
+                                     if t.type == 2])
+            ndec = len(nom.partition(".")[2])
+            text = got_t[1][1] if got_t[0] == "ok" and len(got_t[1]) == 2 else "<" + str(got_t[1]) + ">"
+            cases.append(f"KConcise {ndec} {T.coq_str(unc)} {T.coq_str(text)}")
+            meta.append({"stream": "concise-token", "string": f"{nom}({unc})", "pint_token": text})
+            ck.count("uncertainties:concise token text")
+        ctxs = contexts if (thorough or exp == "") else rng.sample(contexts, 5)
+        for kind, lit in spellings:
+            for pre, suf, fn, is_pow in ctxs:
+                if kind == "bare" and (is_pow or pre in ("m / ", "-", "2 ")):
+                    # "a +/- b" without parentheses is an operator expression of its own: only in
+                    # contexts where +/- (priority 4) binding first is what one writes
+                    continue
+                txt = pre + lit + suf
+                want = outcome(lambda: fn(ufloat(float(n), float(sd))))
+                for path in ("parse_expression", "Quantity"):
+                    if path == "Quantity" and (pre or is_pow):
+                        continue
+                    got = outcome(lambda: getattr(ureg, path)(txt))
+                    w = want
+                    if path == "Quantity" and want[0] == "ok":
+                        w = outcome(lambda: Q(want[1]))
+                    n_eval += 1
+                    ck.count(f"uncertainties:{kind}:" + ("value" if got[0] == "ok" else "error"))
+                    if same_outcome(got, w):
+                        continue
+                    key = "uncertainty-value:" + txt
+                    if is_pow:
+                        # F41: the power binds to the standard deviation only
+                        alt_x = ufloat(float(n), float(sd) ** 2)
+                        alt = outcome(lambda: alt_x * m if suf.endswith(" m") else alt_x)
+                        if same_outcome(got, alt):
+                            key = "uncertainty-power-binds-stddev:" + txt
+                    fails.append((key, f"{path}({txt!r}) = {describe(got)}, but Python's arithmetic on "
+                                       f"ufloat({float(n)!r}, {float(sd)!r}) gives {describe(w)}",
+                                  {"string": txt, "spelling": kind, "nominal": str(n), "std_dev": str(sd),
+                                   "path": path, "pint": describe(got), "python": describe(w)}))
+            ck.case(key=("unc", kind, lit), nontrivial=True,
+                    sample={"string": lit + " m", "denotes": f"{n} +/- {sd}"} if kind == "concise" and exp and len(ck.samples) < 8 else None)
+        # second opinion on the oracle itself: the uncertainties package's own reader of the concise form
+        if plain and not exp:
+            o2 = outcome(lambda: ufloat_fromstr(f"{nom}({unc})"))
+            if o2[0] == "ok" and not same_unc(o2[1], ufloat(float(n), float(sd))):
+                ck.count("uncertainties: oracle differs from uncertainties.ufloat_fromstr (not counted as violation)")
+    ck.extra["uncertainty_level"] = {
+        "evaluations": n_eval, "literals": len(grid),
+        "spellings": ["N(uu)[e±k]", "(N +/- U)[e±k]", "(N ± U)[e±k]", "(N+/-U)[e±k]", "N +/- U"],
+        "contexts": [p + "<x>" + q for p, q, _, _ in contexts],
+        "oracle": "nominal and std_dev from the literal text with Decimal (concise digits count in units of the last "
+                  "decimal of the nominal value), then Python arithmetic on uncertainties.ufloat and ureg.Quantity; "
+                  "nominal and std_dev compared with rel 1e-9",
+        "not_generated": "nominal values with digit-group underscores in the concise form (1_0.5(04) is read as +/- 0.04, "
+                         "not 0.4: the concise rule only recognises plain decimals) — C19's tokenizer domain",
+    }
+    return fails, cases, meta
